@@ -2,10 +2,11 @@ CONSTANTS
   Threads = {1, 2}
   Bugs = {}
   Ghosts = FALSE
-  Depth = 6
+  Depth = 7
   GThreads = {1, 2}
   GEx = {{}, {"a"}}
   GMax = {1, 1000000000}
+  GOps = {"prefix", "rm", "strat"}
 SPECIFICATION GSpec
 CONSTRAINT EmitBeh
 CHECK_DEADLOCK FALSE
